@@ -1,5 +1,5 @@
 """C13 - realign aborts with an error when a worker dies (never hangs, never a silent loss)."""
-from props.realign_common import RN, explore_config, real_mp_tier
+from props.realign_common import RN, explore_config, poison_runs, real_mp_tier
 
 
 def run(ctx):
@@ -26,6 +26,10 @@ def run(ctx):
         ]
     for k, nw, ns in cfgs:
         explore_config(ctx, k, nw, ns)
+    # a worker that fails because of its data (path not in the graph), at the first / a middle / the last record
+    for pk in ([dict(R=4, B=2, C=2, Cap=2, poison=2), dict(R=3, B=1, C=2, Cap=2, poison=3)] if not ctx.thorough else
+               [dict(R=4, B=2, C=2, Cap=2, poison=p) for p in (1, 2, 3, 4)] + [dict(R=3, B=1, C=2, Cap=1, poison=p) for p in (1, 2, 3)]):
+        poison_runs(ctx, pk, 120 if ctx.thorough else 40)
     # real multiprocessing, real SIGKILL at the k-th put of worker w (trusted-base cross-check)
     points = [(1, 1, 0), (1, 2, 1), (2, 1, 0)] if not ctx.thorough else [
         (g, w, k) for g in (1, 2) for w in (1, 2) for k in (0, 1, 2) if not (g == 2 and w == 2)
